@@ -392,6 +392,10 @@ func scratch() string {
 }
 
 func cleanupScratch() {
+	if os.Getenv("GOVC_KEEP_SCRATCH") != "" && scratchDir != "" {
+		fmt.Fprintln(os.Stderr, "scratch kept:", scratchDir)
+		return
+	}
 	if scratchDir != "" {
 		os.RemoveAll(scratchDir)
 	}
